@@ -18,4 +18,5 @@ EmitEdge == PrintT(<<"VFEDGE", ToJson([s |-> St, op |-> op',
 MCInit == Init /\ PrintT(<<"VFINIT", ToJson(St)>>)
            /\ PrintT(<<"VFCONF", ToJson([conns |-> Conns, maxChanges |-> MaxChanges, maxConc |-> MaxConc, kinds |-> Kinds])>>)
 EmitPrio == Prio /\ EmitEdge
+Perms == Permutations(Conns)
 =============================================================================
